@@ -24,7 +24,7 @@ fn c01_flat(u: &mut U) -> c01::Op {
     use c01::{EntryAct::*, Op};
     let t = byte(u) % 4;
     let v = (byte(u) % 50) as i64;
-    match byte(u) % 24 {
+    match byte(u) % 25 {
         0..=4 => Op::Insert(t, v),
         5 | 6 => Op::Remove(t),
         7 => Op::Take(t),
@@ -51,6 +51,7 @@ fn c01_flat(u: &mut U) -> c01::Op {
         17..=19 => Op::Push,
         22 => Op::InsertAt(byte(u) % 4, t, v),
         23 => Op::SetValueWhileBorrowed(t, v, byte(u) % 2 == 0),
+        24 => Op::MultiWrite(t, byte(u) % 4, v),
         _ => Op::Pop,
     }
 }
